@@ -70,6 +70,21 @@ fn run_case(c: &Case, st: &mut Stats, want: bool) -> CaseOut {
         st.add("sources_with_an_open_layer", 1);
     }
     let spix: Vec<u32> = src.get_data().to_vec();
+    // now and then the destination already holds, pixel for pixel, what is about to land on it (a blend after a copy
+    // at the same place): for a copy nothing changes, for a blend everything may
+    let mut dpix = dpix;
+    if c.seed % 13 == 5 {
+        for qy in 0..c.dh {
+            for qx in 0..c.dw {
+                let (px, py) = (c.r.0 as i64 + (qx as i64 - c.dst.0 as i64), c.r.1 as i64 + (qy as i64 - c.dst.1 as i64));
+                if px >= c.r.0 as i64 && px < c.r.2 as i64 && py >= c.r.1 as i64 && py < c.r.3 as i64 && px >= 0 && px < c.sw as i64 && py >= 0 && py < c.sh as i64 {
+                    dpix[(qy * c.dw + qx) as usize] = spix[(py * c.sw as i64 + px) as usize];
+                }
+            }
+        }
+        st.add("destinations_that_already_hold_the_source_block", 1);
+    }
+    let dpix = dpix;
     let mut dst = DrawTarget::from_vec(c.dw, c.dh, dpix.clone());
     if c.decorated {
         dst.set_transform(&Transform::translation(3., 2.).then_scale(2., 0.5));
